@@ -226,7 +226,7 @@ func ruleCode93Checksum(c *Ctx) {
 	found := false
 	c.P.deepEach(outer, 2, func(s DeepSite) {
 		bo, ok := s.Ins.(*ssa.BinOp)
-		if !ok || bo.Op.String() != "==" {
+		if !ok || (bo.Op.String() != "==" && bo.Op.String() != "!=") {
 			return
 		}
 		for _, pair := range [][2]ssa.Value{{bo.X, bo.Y}, {bo.Y, bo.X}} {
@@ -262,7 +262,11 @@ func ruleCode93Checksum(c *Ctx) {
 			for _, ret := range returnsOf(s.Fn) {
 				if ret.Results[0] == keyV && keyV != nil {
 					rc := nn.ReachCond(s.Fn, bo.Block(), ret.Block())
-					imp, _, _ := CondRelation(rc, nn.CondOf(bo))
+					match := nn.CondOf(bo)
+					if bo.Op.String() == "!=" {
+						match = cNot(match)
+					}
+					imp, _, _ := CondRelation(rc, match)
 					if imp {
 						found = true
 					}
